@@ -1717,6 +1717,14 @@ def split_assignments(fn: ast.AST) -> int:
             if isinstance(st, ast.Assign) and len(st.targets) == 1 and isinstance(st.targets[0], (ast.Tuple, ast.List)) and isinstance(st.value, (ast.Tuple, ast.List)) \
                     and len(st.targets[0].elts) == len(st.value.elts) and all(isinstance(t, ast.Name) for t in st.targets[0].elts) \
                     and not any(isinstance(x, ast.Starred) for x in st.value.elts):
+                # low, high = low, mid: a slot assigned to itself changes nothing and is left out
+                keep = [(t, v) for t, v in zip(st.targets[0].elts, st.value.elts) if not (isinstance(v, ast.Name) and v.id == t.id)]
+                if keep and len(keep) < len(st.targets[0].elts) and not ({t.id for t, _ in keep} & {n.id for _, v in keep for n in ast.walk(v) if isinstance(n, ast.Name)}) \
+                        and not ({t.id for t, _ in keep} & {t.id for t in st.targets[0].elts if t.id not in {k.id for k, _ in keep}}):
+                    for t, v in keep:
+                        out.append(ast.copy_location(ast.Assign(targets=[t], value=v), st))
+                    count[0] += 1
+                    continue
                 lhs = {t.id for t in st.targets[0].elts}
                 reads = {n.id for v in st.value.elts for n in ast.walk(v) if isinstance(n, ast.Name)}
                 if not (lhs & reads) and len(lhs) == len(st.targets[0].elts):
